@@ -194,6 +194,16 @@ fn igs_contexts() -> Vec<(&'static str, &'static str)> {
     ]
 }
 
+/// well-formed drawing commands that make the state left by the preceding command visible
+const IGS_PROBES: [&str; 18] = [
+    "L0,0,50,50:", "B10,10,60,60,0:", "Z5,5,40,40:", "O50,50,20:", "F1,1:", "W10,10,Hi@", "P20,20:", "D30,30:", "Q50,50,30,10:", "K50,50,20,0,90:", "G0,3,0,0,10,10,20,20:",
+    "U10,10,90,90,1:", "f3,10,10,50,10,30,40:", "z3,10,10,50,10,30,40:", "V50,50,20,0,90:", "Y50,50,30,10,0,90:", "J50,50,30,10,0,90:", "G1,3,0,0,20,20:G2,3,30,30:",
+];
+const RIP_PROBES: [&str; 14] = [
+    "!|L00000A0A|", "!|B05050K0K|", "!|@0505hello|", "!|F0A0A0F|", "!|C0K0K0A|", "!|o0K0K0A05|", "!|P03000010100A00|", "!|p03000010100A00|", "!|1C00000A0A00|1P050500|", "!|1U05050K0K0000000<>ok<>|",
+    "!|Thello|", "!|X0101|", "!|I0K0K005A0A|", "!|e|E|*|",
+];
+
 // ---------------------------------------------------------------- parameter strings
 
 /// all strings of length `len` over `digits`
@@ -305,6 +315,10 @@ enum Job {
     IgsShapes { ctx: usize, part: usize },
     /// plain text and unknown commands
     Text { emu: Emu },
+    /// IGS: a command with 0..=8 parameters (first parameter varied separately) followed by every well-formed drawing probe
+    IgsProbe { cmd: usize, k: usize },
+    /// RIP: a command with a parameter string followed by every well-formed drawing probe
+    RipProbe { cmd: usize, len: usize },
 }
 
 struct Gfx {
@@ -347,6 +361,16 @@ fn build(_prop: &str, tier: &str) -> Gfx {
         }
         for part in 0..8 {
             jobs.push(Job::IgsShapes { ctx, part });
+        }
+    }
+    for cmd in 0..igs_cmds.len() {
+        for k in 0..=8usize {
+            jobs.push(Job::IgsProbe { cmd, k });
+        }
+    }
+    for cmd in 0..rip_cmds.len() {
+        for len in 0..=24usize {
+            jobs.push(Job::RipProbe { cmd, len });
         }
     }
     jobs.push(Job::Text { emu: Emu::Rip });
@@ -564,6 +588,52 @@ impl Engine for Gfx {
                     self.run_stream(Emu::Igs, cname, prefix.as_bytes(), s.as_bytes(), &key, ctx);
                 }
             }
+            Job::IgsProbe { cmd, k } => {
+                let c = self.igs_cmds[cmd];
+                let key = format!("igs {c} then a drawing command");
+                ctx.count("nontrivial", 1);
+                let firsts: Vec<&str> = if k == 0 { vec![""] } else { vec!["0", "1", "2", "3", "4", "9"] };
+                let rests: Vec<&str> = if k <= 1 { vec![""] } else { vec!["0", "1", "15", "16", "99", "199"] };
+                for first in &firsts {
+                    for rest in &rests {
+                        let mut l: Vec<&str> = Vec::new();
+                        if k > 0 {
+                            l.push(first);
+                        }
+                        for _ in 1..k {
+                            l.push(rest);
+                        }
+                        for probe in IGS_PROBES {
+                            let s = format!("G#{c}{}:\nG#{probe}\n", l.join(","));
+                            self.run_stream(Emu::Igs, "initial state", b"", s.as_bytes(), &key, ctx);
+                        }
+                    }
+                }
+            }
+            Job::RipProbe { cmd, len } => {
+                let c = self.rip_cmds[cmd].clone();
+                let key = format!("rip {} then a drawing command", show(c.as_bytes()));
+                ctx.count("nontrivial", 1);
+                let mut params = rip_params(len, 0, 0);
+                if len >= 2 {
+                    // the first two digit parameter varied separately from the rest
+                    for first in [b"01", b"02", b"0F", b"0G"] {
+                        for rest in [b'0', b'1', b'Z'] {
+                            let mut p = vec![rest; len];
+                            p[..2].copy_from_slice(first);
+                            params.push(p);
+                        }
+                    }
+                }
+                for p in &params {
+                    for probe in RIP_PROBES {
+                        let mut s = Gfx::rip_stream(&c, p, "", "|\n");
+                        s.extend(probe.as_bytes());
+                        s.extend(b"\n");
+                        self.run_stream(Emu::Rip, "initial state", b"", &s, &key, ctx);
+                    }
+                }
+            }
             Job::Text { emu } => {
                 ctx.count("nontrivial", 1);
                 let key = format!("{} text", if emu == Emu::Rip { "rip" } else { "igs" });
@@ -587,6 +657,8 @@ impl Engine for Gfx {
             Job::Igs { cmd, .. } => format!("igs {}", self.igs_cmds[*cmd]),
             Job::IgsShapes { part, .. } => format!("igs shapes {part}"),
             Job::Text { emu } => format!("{emu:?} text"),
+            Job::IgsProbe { cmd, .. } => format!("igs {} then a drawing command", self.igs_cmds[*cmd]),
+            Job::RipProbe { cmd, .. } => format!("rip {} then a drawing command", show(self.rip_cmds[*cmd].as_bytes())),
         };
         json!({"engine": "gfx", "idx": idx, "job": format!("{j:?}"), "key": key})
     }
